@@ -21,6 +21,7 @@ import (
 	"strconv"
 	"strings"
 	"sync"
+	"syscall"
 	"time"
 
 	"verif/fw"
@@ -189,6 +190,7 @@ func main() {
 			c := exec.Command("sh", "-c", "ulimit -v 16000000; exec \"$@\"", "sh", bin, "-check", id, "-tier", tier, "-shard", strconv.Itoa(i), "-shards", strconv.Itoa(shards),
 				"-seed", strconv.FormatInt(seed, 10), "-out", out, "-budget", budget.String())
 			c.Dir = verifDir
+			c.SysProcAttr = &syscall.SysProcAttr{Pdeathsig: syscall.SIGKILL} // workers die with the driver
 			c.Env = append(os.Environ(), "GOMAXPROCS=2", "VCHECK_SCRATCH="+wdir, "GOTRACEBACK=single")
 			var buf strings.Builder
 			c.Stdout, c.Stderr = &buf, &buf
